@@ -51,6 +51,8 @@ def base_history(rng, n):
     if rng.random() < 0.5:
         acts.append(("apply", rng.choice([("id",), ("h", 0), ("mul", ("id",), ("id",)), ("qft", 0)])))   # an empty product
     acts += [("dump",), ("probs",), ("abs",)]
+    if n <= 6:
+        acts += [("polar",)]
     if rng.random() < 0.7:
         acts += [("measure", rng.randrange(1, 1 << n)), ("dump",)]
     if n <= 10 and rng.random() < 0.5:
@@ -92,7 +94,7 @@ if __name__ == "__main__":
                 if tier == "quick" and (a + b) % 2 == (0 if kind == "tensorr" else 1) and a != b and abs(a - b) != 1:
                     continue
                 s = rng.randrange(1 << 30)
-                acts = [("raw", a, gen.random_state(rng, a)), (kind, b, gen.random_state(rng, b)), ("dump",), ("probs",)]
+                acts = [("raw", a, gen.random_state(rng, a)), (kind, b, gen.random_state(rng, b)), ("dump",), ("probs",), ("polar",), ("abs",)]
                 bases.append((s, acts, a + b))
                 variants = [("single", acts)] + [("k=%d" % k, with_threads(acts, k)) for k in (ks[0], ks[-1])]
                 for name, av in variants:
